@@ -8,14 +8,18 @@ from .. import gen, engine, coqrun, cases as CS
 from .nlpprop import ASSUMPTIONS as _A
 
 TRUSTED = [
-    "Rocq model Mech/Inf.v (rescaling, literal power-to-Bernstein matrix, relay of the comparison to coefficients) for "
-    "constraints affine in the states, tied to /repo by comparing the generated NLP rows; for all constraints (incl. "
-    "products) the property itself is tested on rockit: at decision points where the generated rows hold with equality "
-    "in at least one row, the refined sample (refine=30) of the constrained expression never exceeds the bound",
+    "Rocq models Mech/Inf.v (rescaling, literal power-to-Bernstein matrix, affine relay) and Mech/Bern.v (Bernstein-form "
+    "sum / product / degree elevation / derivative, re-interpretation of polynomial constraint expressions), tied to /repo "
+    "by comparing the NLP rows rockit generates for every constraint kind with the model's coefficients (vm_compute, "
+    "binary64, rtol 1e-7)",
+    "independent oracle on rockit: at decision points where the rows hold with equality in at least one row the refined "
+    "sample (refine=30) of the constrained expression stays on the right side of the bound, and the rows equal the "
+    "Bernstein coefficients fitted (numpy polyfit) through the refined samples",
+    "rejection of non-polynomial expressions and of schemes without a degree-4 step polynomial is tested, not proved",
 ]
 ASSUMPTIONS = ["the bound is a parameter whose value is chosen per decision point so that the rows are tight"]
 OPTS = {"methods": ["MS", "SS", "DC"], "intgs": ["rk"], "N_max": 3, "M_max": 3, "constraints": False, "objective": False,
-        "grids": ("Uniform", "Geometric"), "p_param": 0.0, "p_var": 0.0, "p_freeT": 0.3, "p_paramT": 0.0,
+        "grids": ("Uniform", "Geometric", "Free"), "p_param": 0.0, "p_var": 0.0, "p_freeT": 0.3, "p_paramT": 0.0,
         "p_freet0": 0.0, "nx_max": 2, "nu_max": 1, "p_quad": 0.0, "p_dae": 0.0, "maxdeg": 2}
 
 
@@ -37,6 +41,37 @@ def pdegree(e):
     if op == "neg":
         return pdegree(e[1])
     raise ValueError("not a polynomial constraint expression: %r" % (e,))
+
+
+def expand(e, nx):
+    """the expression as a polynomial {exponent tuple: Fraction} in the states (der j counts as a variable too)"""
+    op = e[0]
+    zero = (0,) * (2 * nx)
+    if op == "c":
+        v = Fraction(e[1], e[2])
+        return {zero: v} if v else {}
+    if op in ("s", "der"):
+        j = e[2] if op == "s" else nx + e[1]
+        return {tuple(1 if i == j else 0 for i in range(2 * nx)): Fraction(1)}
+    if op == "neg":
+        return {k: -v for k, v in expand(e[1], nx).items()}
+    a, b = expand(e[1], nx), expand(e[2], nx)
+    out = {}
+    if op in ("+", "-"):
+        for k, v in a.items():
+            out[k] = out.get(k, 0) + v
+        for k, v in b.items():
+            out[k] = out.get(k, 0) + (v if op == "+" else -v)
+    else:
+        for k1, v1 in a.items():
+            for k2, v2 in b.items():
+                k = tuple(x + y for x, y in zip(k1, k2))
+                out[k] = out.get(k, 0) + v1 * v2
+    return {k: v for k, v in out.items() if v != 0}
+
+
+def true_degree(e, nx):
+    return max([sum(k) for k in expand(e, nx)] or [-1])
 
 
 def bexpr_coq(e):
@@ -136,8 +171,10 @@ def gen_case(rng):
                 return ["neg", tree(d - 1)]
             return ["*", tree(d - 1), tree(d - 1)]
         e = tree(2)
-        while not CS_mentions_state(e):
-            e = ["+", e, xs[rng.randrange(nx)]]
+        # cancellations (x - x, -x + x, ...) are simplified away by CasADi when the expression is built: rockit would see
+        # another expression (lower degree, possibly a constant) than the one the model is given
+        while not CS_mentions_state(e) or true_degree(e, nx) != pdegree(e) or pdegree(e) == 0:
+            e = tree(2)
         c["inf"] = {"kind": "poly", "expr": e, "deg": 4 * pdegree(e)}
     else:
         i, j = rng.randrange(nx), rng.randrange(nx)
@@ -362,10 +399,12 @@ def run(tier="quick", seed=0, jobs=16):
                                           "(%s)" % ("non-polynomial expression: " + c["inf"]["wrap"] if c["inf"].get("wrap")
                                                     else "scheme without a degree-4 step polynomial")}]})
     return {"evaluations": len(items) + len(rej), "distinct_nontrivial": len(nontriv),
-            "rule": "random ODEs with 1-2 scalar states x a grid='inf' constraint (affine, quadratic, product of states, both sides state dependent, inf_der of a state) with a "
-                    "parametric bound x {MS, SS with rk, DC degree 4} x N, M x uniform and geometric grids x fixed / free T, at "
-                    "decision points where the bound is set to the largest generated coefficient: refined sample (30 per step) "
-                    "must stay below it; affine rows against the model; euler / low-degree collocation and non-polynomial expressions (sin, exp, rational, sqrt) must be rejected.  "
+            "rule": "random ODEs with 1-2 scalar states x a grid='inf' constraint (affine, quadratic, product of states, cubic, random polynomial trees, both sides "
+                    "state dependent, inf_der of a state alone or mixed with states; upper or lower bound) with a "
+                    "parametric bound x {MS, SS with rk, DC degree 4} x N, M x uniform, geometric and free grids x fixed / free T: rows against the "
+                    "coefficients of the model (Mech/Bern.v; affine also Mech/Inf.v); at "
+                    "decision points where the bound is set to the extreme generated coefficient the refined sample (30 per step) "
+                    "must stay on the right side of it; euler / low-degree collocation and non-polynomial expressions (sin, exp, rational, sqrt) must be rejected.  "
                     "distinct by hash of the case",
             "samples": [{"case": items[0][0]}], "disagreements": dis, "distribution": dist, "extra": {}}
 
